@@ -338,12 +338,23 @@ structure FieldFacts (pm : PMsg) (pf : PField) : Prop where
     | .unknown _ => False
   slot : ∃ k, pm.layout[pf.sindex]? = some k ∧ slotOfType pf.tcode = some k
   ts : pf.num = 253 → tcKind pf.tcode = .timeUTC
+  num : pf.num < 255
+  len1 : 1 ≤ pf.length
+  lenB : (tcArray pf.tcode = true ∨ tcBase pf.tcode = Base.string) → Base.size (tcBase pf.tcode) * pf.length ≤ 255
 
 theorem fieldWF_facts (pm : PMsg) (pf : PField) (h : fieldWF pm pf = true) : FieldFacts pm pf := by
   unfold fieldWF at h
   simp only [Bool.and_eq_true, decide_eq_true_eq, Bool.not_eq_true'] at h
-  obtain ⟨⟨⟨⟨⟨⟨⟨⟨⟨⟨_, _⟩, hk⟩, hf⟩, hs⟩, hkind⟩, hts⟩, hslot⟩, _⟩, _⟩, _⟩ := h
-  refine ⟨hk, hf, hs, ?_, ?_, ?_⟩
+  obtain ⟨⟨⟨⟨⟨⟨⟨⟨⟨⟨hnum, _⟩, hk⟩, hf⟩, hs⟩, hkind⟩, hts⟩, hslot⟩, _⟩, hl1⟩, hlB⟩ := h
+  refine ⟨hk, hf, hs, ?_, ?_, ?_, hnum, hl1, ?_⟩
+  rotate_left 3
+  · intro hor
+    have hc : (tcArray pf.tcode || tcBase pf.tcode == Base.string) = true := by
+      rcases hor with h | h
+      · simp [h]
+      · simp [h]
+    rw [if_pos hc] at hlB
+    simpa using hlB
   · split at hkind <;> simp_all
   · split at hslot
     · rename_i k k' h1 h2
